@@ -146,7 +146,19 @@ type wsConn struct {
 }
 
 // Read reads the next span of bytes from the websocket connection and returns the number of bytes read.
+// A binary message without payload carries no bytes of the stream: Read moves on to the next message
+// rather than reporting an empty read (readers such as bufio give up after a number of those).
 func (ws *wsConn) Read(p []byte) (int, error) {
+	for {
+		n, err := ws.read(p)
+		if n > 0 || err != nil || len(p) == 0 {
+			return n, err
+		}
+	}
+}
+
+// read reads from the current message, or from the next one if there is no current message.
+func (ws *wsConn) read(p []byte) (int, error) {
 	if ws.r == nil {
 		op, r, err := ws.c.NextReader()
 		if err != nil {
